@@ -41,6 +41,9 @@ def recheck():
         for k, d in enumerate(sorted(os.listdir(os.path.join(VERIF, "seeded")))):
             if k % nshards != shard:
                 continue
+            only = os.environ.get("SEEDS")  # optional comma-separated list of seed ids
+            if only and d not in only.split(","):
+                continue
             mp = os.path.join(VERIF, "seeded", d, "meta.json")
             if not os.path.exists(mp):
                 continue
